@@ -17,6 +17,7 @@
 from types import FrameType
 from typing import Optional, TYPE_CHECKING
 
+import deep.logging
 from deep.processor.context.action_context import ActionContext
 from deep.processor.context.action_results import ActionResult, ActionCallback
 
@@ -42,7 +43,11 @@ class SpanActionCallback(ActionCallback):
         :return: True, to keep this callback until next match.
         """
         for span in self.__spans:
-            span.close()
+            try:
+                span.close()
+            except Exception:
+                # a span that fails to close must not stop the other spans from closing
+                deep.logging.exception("Failed to close span %s", span)
         return False
 
 
@@ -86,9 +91,13 @@ class SpanActionContext(ActionContext):
         spans = []
 
         for span_processor in self.trigger_context.config.span_processors:
-            span = span_processor.create_span(name, self.trigger_context.id, self.location_action.tracepoint.id)
-            if span:
-                spans.append(span)
+            try:
+                span = span_processor.create_span(name, self.trigger_context.id, self.location_action.tracepoint.id)
+                if span:
+                    spans.append(span)
+            except Exception:
+                # one span processor failing must not stop the others
+                deep.logging.exception("Failed to create span with %s", span_processor)
 
         if len(spans) > 0:
             self.trigger_context.attach_result(SpanResult(spans))
